@@ -157,6 +157,10 @@ func vNewRouter(cfg *Config, tags ...string) (*vRouter, error) {
 	}
 	r, err := run(context.Background(), cfg)
 	if err != nil {
+		// run() has closed what it had started; goroutines that poll once a second (otter's cleanup loop) need to see it
+		// before the bubble may end
+		hsleep(3 * time.Second)
+		wait()
 		return nil, err
 	}
 	v := &vRouter{r: r, ups: map[string]*scriptUp{}}
